@@ -16,8 +16,9 @@ open HdVerif HdVerif.Gen HdVerif.Match
 
 /-- **`geometry_equal` says yes exactly when** the shapes are the same, the coordinate systems are
 the same, no frame of reference conflicts (both known and different) and every entry of the affine
-matrix is within tolerance (`|a - b| ≤ tol + 1e-5 |b|`, `np.allclose`; identical when `tol` is
-`None`). -/
+matrix is within tolerance (`|a - b| ≤ tol + 1e-5 |b|` **or identical**, `np.allclose` / `np.isclose` with its
+`x == y` term — audit 2: the term decides for negative tolerances, where the inequality alone is false for equal
+entries; identical when `tol` is `None`). -/
 theorem geometryEqual_iff (g h : Geom) (tol : Option Rat) :
     geometryEqual g h tol = .ok true ↔
       ((∀ a, g.shape a = h.shape a) ∧ g.cs = h.cs ∧ NoForConflict g h ∧ AffineWithin g h tol) :=
@@ -686,10 +687,10 @@ example : getitemAxis ⟨1, some 4, 1⟩ 4 = .ok (1, 1, 3) ∧ giCheckSlice (som
 
 /-! ## `geometry_equal` as a relation: what holds and what does not -/
 
-/-- **Reflexive**: every object equals itself, for `tol=None` and every tolerance `≥ 0`. -/
-theorem geometryEqual_refl (g : Geom) (tol : Option Rat) (ht : ∀ t, tol = some t → 0 ≤ t) :
-    geometryEqual g g tol = .ok true :=
-  geometryEqual_refl' g tol ht
+/-- **Reflexive**: every object equals itself, for `tol=None` and EVERY tolerance — negative ones included, through the
+`x == y` term of `np.isclose` (confirmed on the real code: `g.geometry_equal(g, tol=-1.0)` is True). -/
+theorem geometryEqual_refl (g : Geom) (tol : Option Rat) : geometryEqual g g tol = .ok true :=
+  geometryEqual_refl' g tol
 
 /-- **Symmetric for `tol=None`** (exact comparison): the answer does not depend on the order. -/
 theorem geometryEqual_symm_exact (g h : Geom) : geometryEqual g h none = geometryEqual h g none :=
@@ -727,9 +728,9 @@ theorem counterexample_for_not_transitive :
   decide +kernel
 
 /-- what does hold along a chain: entry by entry, the tolerances add up (plus the two relative terms) -/
-theorem geometryEqual_entry_triangle (t1 t2 a b c : Rat) (h1 : EntryWithin t1 a b) (h2 : EntryWithin t2 b c) :
-    rabs (a - c) ≤ t1 + t2 + rtolDefault * (rabs b + rabs c) :=
-  entryWithin_trans h1 h2
+theorem geometryEqual_entry_triangle (t1 t2 a b c : Rat) (h1 : EntryWithin t1 a b) (h2 : EntryWithin t2 b c)
+    (p1 : 0 ≤ t1) (p2 : 0 ≤ t2) : rabs (a - c) ≤ t1 + t2 + rtolDefault * (rabs b + rabs c) :=
+  entryWithin_trans h1 h2 p1 p2
 
 /-! ## the index transformers of both directions -/
 
@@ -835,6 +836,10 @@ theorem match_own_geometry {α : Type} (src : Vol α) (tol : Rat) (mode : PadMod
   exact ((match_sound src src.geom tol mode hlaw r hwf.det_ne_zero hr1).2 k hk').1 k hk href.symm
 
 /-! ## non-vacuity (round 2) -/
+
+/-- negative tolerance: identical geometries still compare equal (numpy's `x == y` term), any difference does not -/
+example : geometryEqual (unitGeom 5 none) (unitGeom 5 none) (some (-1)) = .ok true ∧
+    geometryEqual (unitGeom 5 none) (unitGeom (5 + 1 / 2) none) (some (-1)) = .ok false := by decide +kernel
 
 /-- a quarter-voxel shift at tol = 1/3 is planned like no shift, at tol = 1/5 it is refused -/
 example : (match mgCropPad ((2 + 1 / 4) * (3 / 2)) (3 / 2) 1 4 8 (1 / 3) false false with
